@@ -90,3 +90,70 @@ package remote
 //@   loop 0 invariant [C15:chain] tagPages >= 0 && (tagPages == 0 ==> last == last0 && err == nil) && (tagPages > 0 ==> last == "" && url == tagLastURL && err == tagLastErr)
 //@   ensures [C15:nil-iff-nolink] tagPages > 0 && ((result == nil) == (tagLastErr == errNoLink))
 //@   ensures [C15:error-unchanged] result != nil ==> result == tagLastErr
+//@
+//@ import digest "github.com/opencontainers/go-digest"
+//@ import registry "oras.land/oras-go/v2/registry"
+//@
+//@ func verifyContentDigest
+//@   requires [wf] resp != nil && resp.Request != nil
+//@   let h = headerGet(resp.Header, headerDockerContentDigest)
+//@   ensures [C13:exact] (result == nil) == (h == "" || (digestParses(h) && h == expected))
+//@   modifies alloc, elems[any]
+//@
+//@ func generateBlobDescriptor
+//@   requires [wf] resp != nil && resp.Request != nil
+//@   let h = headerGet(resp.Header, headerDockerContentDigest)
+//@   ensures [C13:table] result1 == nil ==> resp.ContentLength != -1 && result0.Size == resp.ContentLength && result0.Digest == refDigest && (h == "" || (digestParses(h) && h == refDigest))
+//@   modifies alloc, elems[any]
+//@
+//@ func calculateDigestFromResponse
+//@   requires [wf] resp != nil && resp.Request != nil && resp.Body != nil
+//@   call io.ReadAll requires [C13,C15:body-read-through-limit] limitOf(args.r) == effLimit(maxMetadataBytes) && limitedFrom(args.r) == old(resp.Body)
+//@   ensures [C13:digest-of-body] result1 == nil ==> strlen(result0) > 0
+//@   modifies alloc, http.Response.Body, ghost.closedRC, elems[byte]
+//@
+//@ func (*manifestStore).generateDescriptor
+//@   requires [wf] resp != nil && resp.Request != nil && resp.Body != nil && s.repo != nil
+//@   let h = headerGet(resp.Header, headerDockerContentDigest)
+//@   ensures [C13:table-length] result1 == nil ==> resp.ContentLength != -1 && result0.Size == resp.ContentLength
+//@   ensures [C13:table-header-digest] result1 == nil && h != "" ==> digestParses(h) && result0.Digest == h
+//@   ensures [C13:table-reference-digest] result1 == nil && digestParses(ref.Reference) ==> result0.Digest == ref.Reference
+//@   ensures [C13:table-head-needs-digest] result1 == nil && h == "" && httpMethod == "HEAD" ==> digestParses(ref.Reference)
+//@
+//@ pure inList(l []string, s string) bool = exists i int :: 0 <= i && i < len(l) && l[i] == s
+//@ func isManifest
+//@   loop 0 invariant [not-yet] forall i int :: 0 <= i && i < $i ==> manifestMediaTypes[i] != desc.MediaType
+//@   loop 0 invariant [list] manifestMediaTypes == (len(manifestMediaTypes0) == 0 ? defaultManifestMediaTypes : manifestMediaTypes0)
+//@   ensures [C13:exact] result == inList(len(manifestMediaTypes0) == 0 ? defaultManifestMediaTypes : manifestMediaTypes0, desc.MediaType)
+//@   modifies nothing
+//@
+//@ func (*Repository).blobStore
+//@   ensures [C13:routes-by-isManifest] typeIs(result, *manifestStore) == inList(len(r.ManifestMediaTypes) == 0 ? defaultManifestMediaTypes : r.ManifestMediaTypes, desc.MediaType)
+//@   ensures [C13:routes-by-isManifest] typeIs(result, *blobStore) == !inList(len(r.ManifestMediaTypes) == 0 ? defaultManifestMediaTypes : r.ManifestMediaTypes, desc.MediaType)
+//@   ensures [C13:same-repository] typeIs(result, *manifestStore) ==> as(result, *manifestStore).repo == r
+//@   ensures [C13:same-repository] typeIs(result, *blobStore) ==> as(result, *blobStore).repo == r
+//@
+//@ ghost local fetchResp *http.Response
+//@ ghost local fetchDone bool
+//@ func (*blobStore).Fetch
+//@   requires [wf] s.repo != nil && ctx != nil
+//@   entry set fetchDone = false
+//@   call do set fetchResp = result0
+//@   call do set fetchDone = result1 == nil
+//@   ensures [C13:checked-status] err == nil ==> fetchDone && fetchResp.StatusCode == 200
+//@   ensures [C13:checked-length] err == nil ==> fetchResp.ContentLength == -1 || fetchResp.ContentLength == target.Size
+//@   ensures [C13:checked-digest] err == nil ==> headerGet(fetchResp.Header, headerDockerContentDigest) == "" || headerGet(fetchResp.Header, headerDockerContentDigest) == target.Digest
+//@   ensures [C13:body-closed-on-error] err != nil && fetchDone ==> closedRC(fetchResp.Body)
+//@   ensures [C13:not-found] fetchDone && fetchResp.StatusCode == 404 ==> errors.Is(err, errdef.ErrNotFound)
+//@
+//@ func (*manifestStore).Fetch
+//@   requires [wf] s.repo != nil && ctx != nil
+//@   entry set fetchDone = false
+//@   call do set fetchResp = result0
+//@   call do set fetchDone = result1 == nil
+//@   ensures [C13:checked-status] err == nil ==> fetchDone && fetchResp.StatusCode == 200
+//@   ensures [C13:checked-length] err == nil ==> fetchResp.ContentLength == -1 || fetchResp.ContentLength == target.Size
+//@   ensures [C13:checked-digest] err == nil ==> headerGet(fetchResp.Header, headerDockerContentDigest) == "" || headerGet(fetchResp.Header, headerDockerContentDigest) == target.Digest
+//@   ensures [C13:body-closed-on-error] err != nil && fetchDone ==> closedRC(fetchResp.Body)
+//@   ensures [C13:returns-body] err == nil ==> rc == fetchResp.Body
+//@   ensures [C13:not-found] fetchDone && fetchResp.StatusCode == 404 ==> errors.Is(err, errdef.ErrNotFound)
